@@ -8,3 +8,6 @@ open Bec2Verif.Props.C04
 #print axioms emac_damage_rejected
 #print axioms body_damage_rejected_or_collision
 #print axioms payload_damage_rejected_or_collision
+#print axioms mac_one_byte_replaced
+#print axioms payload_byte_damage_rejected
+#print axioms entry_byte_damage_rejected
